@@ -203,7 +203,12 @@ def check_cases(ctx, cases):
 
     reqs = []
     impls = []
-    for case in cases:
+    from common import local_timezone
+
+    for ci_, case in enumerate(cases):
+        # the process's own timezone must not matter (recorded in the case so that a replay runs under the same one)
+        case.setdefault("tz", ci_ % 6)
+        ctx.count("local-tz=" + local_timezone(case["tz"]))
         ctx.case(case)
         if case["obj"] == "rem":
             ctx.count("rem-target=" + case["kind"])
